@@ -354,6 +354,8 @@ def remap_pin_grid_rule(ctx, rep, rule="layout"):
             seed = (key, ph, step)
         elif si[0] == "agg" and si[1] == "array" and [x[1] for x in si[4]] == list(range(10)):
             arrays.append((key, ph, step))
+        elif si[0] == "bytes" and bytes(si[1]) == bytes(range(10)):
+            arrays.append((key, ph, step))      # the same start grid as a named constant
     for key, ph, step in arrays:
         ss = strip(step)
         if ss[0] == "upd" and ss[1] == ph and ss[2][0] == "i" and strip(ss[2][1]) == kterm:
